@@ -109,7 +109,7 @@ pub fn meta(id: &str) -> Option<CheckMeta> {
         "C12" => Some(CheckMeta {
             id: "C12",
             level: "exploration",
-            rule: "round-trip through the crate's LogWriter/LogReader (verif wrappers) on MemFs: a case is 1-4 writer segments (each a list of record lengths drawn from {0,1,2, 7+-3, 32761+-9, 32768+-9, 65522+-9, 65536+-9, 100000, uniform}) ended by a clean close or by the writer dying between two fragments of its last record (file truncated at that fragment boundary), a new writer reopening in append mode, and an optional final truncation at any byte; the reader must return exactly the complete records, byte for byte and in order, then end-of-log, never an error or a record that was not appended; the file length is cross-checked against an independent model of the block layout. Plus an enumerated family: every reachable block offset within 20 bytes of a block boundary (in block 0 and 1) x every record length within 20 of the remaining room (quick: 1/4 of the family rotated by seed; thorough: all). Non-trivial = a record starts/ends within 8 bytes of a block boundary or spans blocks, or a reopen/cut falls inside a block; distinct by case hash".into(),
+            rule: "round-trip through the crate's LogWriter/LogReader (verif wrappers) on MemFs: a case is 1-4 writer segments (each a list of record lengths drawn from {0,1,2, 7+-3, 32761+-9, 32768+-9, 65522+-9, 65536+-9, 100000, uniform}) ended by a clean close or by the writer dying between two fragments of its last record (file truncated at that fragment boundary), a new writer reopening in append mode, and an optional final truncation at any byte; the reader must return exactly the complete records, byte for byte and in order, then end-of-log, never an error or a record that was not appended; the file length is cross-checked against an independent model of the block layout. Plus an enumerated family: every reachable block offset within 20 bytes of a block boundary (in block 0 and 1) x every record length within 20 of the remaining room (quick: half of the family rotated by seed; thorough: all). Non-trivial = a record starts/ends within 8 bytes of a block boundary or spans blocks, or a reopen/cut falls inside a block; distinct by case hash".into(),
             assumptions: vec!["MemFs returns full reads; LogReader/LogWriter are reached through thin wrappers in src/verif.rs".into()],
         }),
         _ => None,
